@@ -8,7 +8,7 @@ use white_whale_std::vault_network::vault::{CallbackMsg, ExecuteMsg};
 
 use crate::{
     error::VaultError,
-    state::{CONFIG, LOAN_COUNTER, SETTLED_LOAN_FEES},
+    state::{CONFIG, LOAN_COUNTER, SETTLED_FEES_AT_LOAN_START, SETTLED_LOAN_FEES},
 };
 
 pub fn flash_loan(
@@ -25,10 +25,15 @@ pub fn flash_loan(
     }
 
     // increment loan counter
-    LOAN_COUNTER.update::<_, StdError>(deps.storage, |c| {
+    let loan_depth = LOAN_COUNTER.update::<_, StdError>(deps.storage, |c| {
         Ok(c.checked_add(1)
             .ok_or_else(|| OverflowError::new(cosmwasm_std::OverflowOperation::Add, c, 1))?)
     })?;
+
+    // remember the fees already settled by loans completed inside a loan that is still open: what is settled
+    // from now on, inside this loan, has to be left in the vault on top of this loan's own fees
+    let settled_fees = SETTLED_LOAN_FEES.may_load(deps.storage)?.unwrap_or_default();
+    SETTLED_FEES_AT_LOAN_START.save(deps.storage, loan_depth, &settled_fees)?;
 
     // store current balance for after trade profit check
     let old_balance = match config.asset_info.clone() {
@@ -47,10 +52,6 @@ pub fn flash_loan(
             resp.balance
         }
     };
-
-    // fees of loans that already completed inside a loan that is still open are not part of this loan's baseline
-    let old_balance =
-        old_balance.checked_sub(SETTLED_LOAN_FEES.may_load(deps.storage)?.unwrap_or_default())?;
 
     let mut messages: Vec<CosmosMsg> = vec![];
 
